@@ -11,7 +11,7 @@ import (
 // C10: SCTE-35 state tracker bookkeeping.
 type c10 struct{}
 
-func init() { register("C10", c10{}) }
+func init() { register("C10", c10{}); register("X03", c10{}) }
 
 // a history refers to descriptor objects by index ("obj"); "objs" on the first
 // event lists their abstract fields; the same object may be used by several steps.
@@ -209,18 +209,24 @@ func (c10) Exec(h []Ev) []Ev {
 	for _, e := range h {
 		if dead {
 			e["panic"] = "skipped-after-panic"
-			e["d"], e["res"], e["closed"], e["open"] = Ev{}, "", []int{}, []int{}
+			e["d"], e["res"], e["closed"], e["open"], e["warn"] = Ev{}, "", []int{}, []int{}, "none"
 			continue
 		}
 		k := GI(e["obj"])
 		d := objs[k]
-		e["closed"], e["res"], e["open"] = []int{}, "", []int{}
+		e["closed"], e["res"], e["open"], e["warn"] = []int{}, "", []int{}, "none"
 		e["panic"] = guard(func() {
 			e["d"] = c10Obs(d, k)
 			switch GS(e["op"]) {
 			case "process":
 				closed, err := st.ProcessDescriptor(d)
 				e["closed"] = ids(closed)
+				switch err { // the validation verdict (X03; ignored by C10)
+				case gots.ErrSCTE35MissingOut:
+					e["warn"] = "missingout"
+				case gots.ErrSCTE35InvalidDescriptor:
+					e["warn"] = "invalid"
+				}
 				switch err {
 				case gots.ErrSCTE35UnsupportedSpliceCommand:
 					e["res"] = "nopts"
